@@ -21,7 +21,16 @@ type subTask interface {
 type subscriptions []Subscription
 
 func (s subscriptions) applyTo(d *subscriptions) {
-	*d = append(*d, s...)
+L_SUB:
+	for _, sub := range s {
+		for i, e := range *d {
+			if e.Topic == sub.Topic {
+				(*d)[i] = sub
+				continue L_SUB
+			}
+		}
+		*d = append(*d, sub)
+	}
 }
 
 type unsubscriptions []string
